@@ -223,10 +223,20 @@ func buildOps(th bool) {
 	scArith := mc.ModAlphabet(ref.N, mc.ScalarConstants(), 1, 4, false)
 	if !th {
 		var s []mc.Val
-		for i := 0; i < len(scArith); i += 4 {
-			s = append(s, scArith[i])
+		for i, v := range scArith {
+			// quick: every 4th value, plus everything around the half order and the limb boundaries of n
+			if i%4 == 0 || strings.HasPrefix(v.Label, "(m-1)/2") || strings.HasPrefix(v.Label, "m-") || strings.HasPrefix(v.Label, "limb") {
+				s = append(s, v)
+			}
 		}
 		scArith = s
+	}
+	// values whose limbs coincide with those of (n-1)/2 from the top down (a comparison that exits at the first differing limb)
+	for l := 0; l < 4; l++ {
+		for _, dl := range []int64{-1, 1} {
+			v := new(big.Int).Add(ref.HalfN, new(big.Int).Lsh(big.NewInt(dl), uint(64*l)))
+			scArith = append(scArith, mc.Val{Label: fmt.Sprintf("(n-1)/2 %+d*2^%d", dl, 64*l), V: ref.ModN(v)})
+		}
 	}
 	pubP := ref.G().Mul(big.NewInt(0x1234567))
 	pubS := ref.ModN(ref.OS2IP(ref.TaggedHash("verif/C17", []byte("public scalar"))))
